@@ -815,6 +815,22 @@ def rule_pipeline(run, prog):
         run.ob("R-16.5", f"{main.key}::single[{f}]", bad is None,
                f"{f}(...) is not called exactly once per file, unconditionally, with the same arguments for inline and file content: {bad}",
                main.node, calls=sum(len(o.events(kind)) for o in results.values()))
+    # the file is analysed under the name it was selected by: a symbolic link `api.h -> api_v2.h` is the header api.h (its guard
+    # is API_H), exactly as the same text given with --hfile --filename api.h would be
+    import posixpath as _pp
+    link_tree = {"inc": {"api_v2.h": TREE["zz.c"], "api.h": ("->", "api_v2.h")}, "main.c": TREE["zz.c"]}
+    bad = None
+    for args, want in ((["inc/api.h"], ["api.h"]), (["inc"], ["api.h", "api_v2.h"]), (["main.c", "inc/api.h"], ["main.c", "api.h"])):
+        o = runs.run(args, tree=link_tree)
+        if o.crash is not None:
+            bad = bad or f"arguments {args}: the run crashes ({o.crash})"
+            continue
+        got = [str(e[1].__dict__.get("basename")) for e in o.events("run")]
+        if sorted(got) != sorted(want):
+            bad = bad or f"arguments {args} (inc/api.h is a link to api_v2.h): analysed under the names {got}, selected as {want}"
+    run.ob("R-16.5", f"{main.key}::named-as-selected", bad is None,
+           f"a file is not analysed under the name it was selected by: {bad}: its diagnostics (include guard) differ from those of "
+           f"the same content given inline under that name", main.node)
     from .c04 import FormatterBench
     from ..minieval import Unsupported
     from ..xeval import Raised
